@@ -37,3 +37,35 @@ Example C03_trans5_init_is_pmm_init :
   end /\
   match fst C01_examples.pm_init_result with InitOk _ _ => True | _ => False end.
 Proof. vm_compute. split; [reflexivity|exact I]. Qed.
+
+(** [audit A] ALL hypotheses of C03_init_with_model_setup discharged together (map of Props/C01_examples.v: 3 pools, kernel
+    frames 3..5, one early-boot frame, limit 2^64, no map failure, fuel 300) and the theorem applied *)
+Example C03_init_with_model_setup_nonvacuous :
+  go_pmm_BitmapAllocator_init 300 (to_ga true empty_alloc []) (mk_go_pmm_BootMemAllocator 0 0 0 0 0 0) o_model (map to_gr C01_examples.pm_map) =
+  match fst (pmm_init C01_examples.pm_map C01_examples.pm_kstart C01_examples.pm_kend two64 0) with
+  | InitOk a2 b' => GOk (to_ga true a2 [GEv "printStats" []; GEv "setupPoolBitmaps" []],
+                         (None, to_gb C01_examples.pm_kstart C01_examples.pm_kend
+                                      (kernel_start_frame C01_examples.pm_kstart) (kernel_end_frame C01_examples.pm_kend) b'))
+  | InitPanic => GPanic
+  | InitHang => GFuel
+  | _ => GPanic
+  end.
+Proof.
+  assert (Hm : exists calls, map_pages C01_examples.pm_map (kernel_start_frame C01_examples.pm_kstart) (kernel_end_frame C01_examples.pm_kend)
+             (N.shiftr (required_bytes (fst (fst (pass1 C01_examples.pm_map 0))) (snd (pass1 C01_examples.pm_map 0))) PageShift) 0 = MGo (mkB 1 1) calls)
+    by (eexists; vm_compute; reflexivity).
+  destruct Hm as [calls Hm].
+  apply (C03_init_with_model_setup (to_ga true empty_alloc []) (mk_go_pmm_BootMemAllocator 0 0 0 0 0 0) o_model
+           true [GEv "setupPoolBitmaps" []] C01_examples.pm_kstart C01_examples.pm_kend C01_examples.pm_map
+           C01_examples.pm_kstart C01_examples.pm_kend two64 0 (mkB 1 1) calls 300).
+  - vm_compute. reflexivity.
+  - exact Hm.
+  - vm_compute. reflexivity.
+  - vm_compute. reflexivity.
+  - vm_compute. reflexivity.
+  - vm_compute. lia.
+  - vm_compute. reflexivity.
+  - vm_compute. lia.
+  - vm_compute. reflexivity.
+  - vm_compute. lia.
+Qed.
